@@ -99,12 +99,12 @@ fn c09_update_rotation_timestamp() {
     let elapsed = delay_elapsed_pre();
     match r {
         Ok(()) => {
-            assert!(!enforce || elapsed == Some(true), "OBL C09.delay_enforced: Ok with enforcement only if now - last >= minimum delay");
-            assert!(
+            soroban_sdk::obl!(!enforce || elapsed == Some(true), "OBL C09.delay_enforced: Ok with enforcement only if now - last >= minimum delay");
+            soroban_sdk::obl!(
                 inst().post::<_, u64>(&DataKey::LastRotationTimestamp) == Some(now),
                 "OBL C09.clock_restarted: every successful rotation (bypass or not) restarts the clock at now"
             );
-            assert!(
+            soroban_sdk::obl!(
                 inst().changed_only(&[Words::of(&DataKey::LastRotationTimestamp)]) && pers().n_changed() == 0,
                 "OBL C09.frame: only LastRotationTimestamp is written"
             );
@@ -112,9 +112,9 @@ fn c09_update_rotation_timestamp() {
             kani::cover!(!enforce && elapsed == Some(false), "COVER c09 ok bypass although too early");
         }
         Err(e) => {
-            assert!(enforce && elapsed == Some(false), "OBL C09.err_only_when_too_early: never refused when bypassing or when the delay elapsed");
-            assert!(e == ContractError::InsufficientRotationDelay, "OBL C09.err_code");
-            assert!(shim::no_effects(), "OBL C09.err_no_effect: a refused rotation leaves the clock untouched");
+            soroban_sdk::obl!(enforce && elapsed == Some(false), "OBL C09.err_only_when_too_early: never refused when bypassing or when the delay elapsed");
+            soroban_sdk::obl!(e == ContractError::InsufficientRotationDelay, "OBL C09.err_code");
+            soroban_sdk::obl!(shim::no_effects(), "OBL C09.err_no_effect: a refused rotation leaves the clock untouched");
             kani::cover!(true, "COVER c09 err");
         }
     }
@@ -170,12 +170,12 @@ fn c03_rotate_signers() {
     let e0: Option<u64> = inst().pre(&DataKey::Epoch);
     match r {
         Ok(()) => {
-            assert!(wf(&ws), "OBL C03.wellformed_only: a set is installed only if validate_signers accepted it");
-            assert!(
+            soroban_sdk::obl!(wf(&ws), "OBL C03.wellformed_only: a set is installed only if validate_signers accepted it");
+            soroban_sdk::obl!(
                 shim::internal_called("validate_signers", &ws),
                 "OBL C03.validated_this_set: validate_signers was asked about exactly this set"
             );
-            assert!(
+            soroban_sdk::obl!(
                 shim::internal_called("update_rotation_timestamp", &enforce),
                 "OBL C03.delay_flag_forwarded: the rotation clock is consulted with the caller's enforcement flag"
             );
@@ -183,15 +183,15 @@ fn c03_rotate_signers() {
                 Some(e) => e.wrapping_add(1),
                 None => 0,
             };
-            assert!(e0.is_some() && e0 != Some(u64::MAX) && inst().post::<_, u64>(&DataKey::Epoch) == Some(e1), "OBL C03.epoch_plus_one");
-            assert!(pers().post::<_, BytesN<32>>(&DataKey::SignersHashByEpoch(e1)) == Some(hsh), "OBL C03.hash_by_epoch_set");
-            assert!(!pers().pre_has(&DataKey::EpochBySignersHash(hsh)), "OBL C03.never_installed_before");
-            assert!(pers().post::<_, u64>(&DataKey::EpochBySignersHash(hsh)) == Some(e1), "OBL C03.epoch_by_hash_set");
-            assert!(
+            soroban_sdk::obl!(e0.is_some() && e0 != Some(u64::MAX) && inst().post::<_, u64>(&DataKey::Epoch) == Some(e1), "OBL C03.epoch_plus_one");
+            soroban_sdk::obl!(pers().post::<_, BytesN<32>>(&DataKey::SignersHashByEpoch(e1)) == Some(hsh), "OBL C03.hash_by_epoch_set");
+            soroban_sdk::obl!(!pers().pre_has(&DataKey::EpochBySignersHash(hsh)), "OBL C03.never_installed_before");
+            soroban_sdk::obl!(pers().post::<_, u64>(&DataKey::EpochBySignersHash(hsh)) == Some(e1), "OBL C03.epoch_by_hash_set");
+            soroban_sdk::obl!(
                 shim::n_events() == 1 && shim::event_is(0, &(Symbol::new(&env, "signers_rotated"), e1, hsh), &()),
                 "OBL C03.one_rotation_event: exactly one signers_rotated(epoch, hash) event"
             );
-            assert!(
+            soroban_sdk::obl!(
                 inst().changed_only(&[Words::of(&DataKey::Epoch), Words::of(&DataKey::LastRotationTimestamp)])
                     && pers().changed_only(&[Words::of(&DataKey::SignersHashByEpoch(e1)), Words::of(&DataKey::EpochBySignersHash(hsh))]),
                 "OBL C03.frame: no other key is written"
@@ -256,8 +256,8 @@ fn c03_rotate_signers_preserves_lookup_invariant() {
     let r = rotate_signers(&env, &ws, kani::any());
 
     if r.is_ok() {
-        assert!(igw_a(false, &hstar), "OBL C03.inv_set_to_epoch: set→epoch lookups stay inverse to epoch→set over all installed epochs");
-        assert!(igw_b(false, estar), "OBL C03.inv_epoch_to_set: epoch→set lookups stay inverse to set→epoch over all installed epochs");
+        soroban_sdk::obl!(igw_a(false, &hstar), "OBL C03.inv_set_to_epoch: set→epoch lookups stay inverse to epoch→set over all installed epochs");
+        soroban_sdk::obl!(igw_b(false, estar), "OBL C03.inv_epoch_to_set: epoch→set lookups stay inverse to set→epoch over all installed epochs");
         kani::cover!(true, "COVER c03_inv ok");
         kani::cover!(hstar == hnew, "COVER c03_inv witness is the new set");
     }
@@ -310,17 +310,17 @@ fn ctor_case(n: u32) -> bool {
     let calls = unsafe { ROTATE_CALLS };
     match r {
         Ok(()) => {
-            assert!(n >= 1, "OBL C03.ctor_needs_signers: construction with no signer set fails");
-            assert!(calls == n && !unsafe { ROTATE_ENFORCED }, "OBL C03.ctor_every_set_rotated: every initial set goes through rotate_signers(.., enforce=false), once");
-            assert!(inst().post::<_, u64>(&DataKey::Epoch) == Some(n as u64), "OBL C03.ctor_epoch_counts_sets: epoch starts at 0 and ends at the number of installed sets");
-            assert!(inst().post::<_, u64>(&DataKey::PreviousSignerRetention) == Some(retention), "OBL C03.ctor_retention_stored");
-            assert!(inst().post::<_, BytesN<32>>(&DataKey::DomainSeparator) == Some(domain), "OBL C03.ctor_domain_stored");
-            assert!(inst().post::<_, u64>(&DataKey::MinimumRotationDelay) == Some(min_delay), "OBL C03.ctor_delay_stored");
+            soroban_sdk::obl!(n >= 1, "OBL C03.ctor_needs_signers: construction with no signer set fails");
+            soroban_sdk::obl!(calls == n && !unsafe { ROTATE_ENFORCED }, "OBL C03.ctor_every_set_rotated: every initial set goes through rotate_signers(.., enforce=false), once");
+            soroban_sdk::obl!(inst().post::<_, u64>(&DataKey::Epoch) == Some(n as u64), "OBL C03.ctor_epoch_counts_sets: epoch starts at 0 and ends at the number of installed sets");
+            soroban_sdk::obl!(inst().post::<_, u64>(&DataKey::PreviousSignerRetention) == Some(retention), "OBL C03.ctor_retention_stored");
+            soroban_sdk::obl!(inst().post::<_, BytesN<32>>(&DataKey::DomainSeparator) == Some(domain), "OBL C03.ctor_domain_stored");
+            soroban_sdk::obl!(inst().post::<_, u64>(&DataKey::MinimumRotationDelay) == Some(min_delay), "OBL C03.ctor_delay_stored");
             true
         }
         Err(e) => {
-            assert!(n == 0 || unsafe { ROTATE_FAIL_AT } < n, "OBL C03.ctor_err_only_if_empty_or_rotation_failed");
-            assert!(n != 0 || e == ContractError::EmptySigners, "OBL C03.ctor_empty_code");
+            soroban_sdk::obl!(n == 0 || unsafe { ROTATE_FAIL_AT } < n, "OBL C03.ctor_err_only_if_empty_or_rotation_failed");
+            soroban_sdk::obl!(n != 0 || e == ContractError::EmptySigners, "OBL C03.ctor_empty_code");
             false
         }
     }
